@@ -5,9 +5,9 @@ the verdict per (patch, property). Nothing is written to /repo."""
 import glob, os, re, shutil, subprocess, sys, tempfile, concurrent.futures
 VERIF = os.path.dirname(os.path.dirname(os.path.abspath(__file__)))
 MAP = [("v2/limit/", "C04 C12 C13 C20"), ("v2/join/unite/", "C03 C08 C09 C10 C11 C20"), ("v2/join/", "C03 C08 C09 C10 C20"),
-       ("v2/priority/divider/", "C14"), ("v2/priority/utils/", "C18"), ("v2/priority/", "C01 C02 C05 C06 C07 C15 C20"),
+       ("v2/priority/divider/", "C14"), ("v2/priority/utils/", "C18"), ("v2/priority/internal/common/", "C14 C15 C18"), ("v2/priority/", "C01 C02 C05 C06 C07 C15 C20"),
        ("priority/simple.go", "C02 C16 C20"), ("priority/utils.go", "C18"), ("priority/divider.go", "C14"),
-       ("priority/", "C01 C02 C05 C06 C07 C15 C16 C17 C20"), ("join/", "C03 C08 C09 C10 C16 C20")]
+       ("priority/internal/common/", "C14 C15 C18"), ("priority/", "C01 C02 C05 C06 C07 C15 C16 C17 C20"), ("join/", "C03 C08 C09 C10 C16 C20")]
 def props_of(patch):
     out = []
     for l in open(patch):
